@@ -10,7 +10,7 @@ from .common import Acc, outcome_sig
 
 PROP = 'C13'
 # mutation -> (metadata changed, content changed)
-MUTS = {None: (False, False), 'touch': (True, False), 'touch1': (True, False), 'flip': (False, True), 'w': (True, True),
+MUTS = {None: (False, False), 'touch': (True, False), 'touch1': (True, False), 'flip': (False, True), 'flipend': (False, True), 'w': (True, True),
         'grow': (True, True), 'nul': (True, True)}
 
 
@@ -59,9 +59,19 @@ def scenarios():
                 want = everything if detects(cmp, m) else []
                 if hi == 6 and not want:
                     pass
-                stale = cmp == 'METADATA' and m == 'flip'
+                stale = cmp == 'METADATA' and MUTS[m] == (False, True)
                 out.append(dict(role='input_read', nested=hi >= 2, cmp=cmp, m=m, prog=prog, mutate=mut(m, 'i'),
                                 want=want, stale_ok=stale))
+    # R7 input of 1023..3000 bytes (the hash loop reads 1024-byte units): change in the first / in the last byte
+    for cmp in CMPS:
+        for key in ('K1023', 'K1024', 'K1025', 'K1500', 'K2048', 'K3000'):
+            for hi, host in enumerate((lambda q: [bfn('a', [q])], lambda q: [sbn([sbn([q], 2)])])):
+                for m in MUTS:
+                    prog = {'level': 0, 'root': host(rd('i', cmp))}
+                    everything = [fname(n, 0) for n in _calls(prog['root'])]
+                    out.append(dict(role='long_input_read', nested=hi >= 1, cmp=cmp, m=m, prog=prog, mutate=mut(m, 'i'),
+                                    stamp=key, input=key, want=everything if detects(cmp, m) else [],
+                                    stale_ok=cmp == 'METADATA' and MUTS[m] == (False, True)))
     # R2 output integrity
     for cmp in CMPS:
         for hi, host in enumerate((lambda: [bfn('a', [], cmp)], lambda: [sbn([bfn('a', [], cmp)])],
@@ -72,7 +82,7 @@ def scenarios():
                 det = True if m == 'del' else detects(cmp, m)
                 out.append(dict(role='output_integrity', nested=hi >= 1, cmp=cmp, m=m, prog=prog,
                                 mutate=['del', 'a'] if m == 'del' else mut(m, 'a'),
-                                want=everything if det else [], stale_ok=(cmp == 'METADATA' and m == 'flip')))
+                                want=everything if det else [], stale_ok=(cmp == 'METADATA' and MUTS.get(m) == (False, True))))
     # R3 output read back in the same / a later build; the hash memo across a rebuild
     for cmp_in, cmp_out, cmp_rd, stamp, nested in itertools.product(CMPS, CMPS, CMPS, ('fresh', 'fixed'), (False, True)):
         for m in (None, 'touch', 'flip', 'w'):
@@ -156,7 +166,7 @@ def work(ctx, task):
         sc = S[si]
         for t0 in ('plain', 'after_rebuild'):
             world.start()
-            world.mutate(['w', 'i', 'A'])
+            world.mutate(['w', 'i', sc.get('input', 'A')])
             r1 = world.build(sc['prog'])
             if t0 == 'after_rebuild':
                 world.build(sc['prog'])
@@ -206,8 +216,9 @@ def coverage(res, tier):
         'rule': 'all combinations of role {input read, output integrity, output read back (producer reads an input, '
                 'a separate reader reads the output; producer comparison x reader comparison x fresh/fixed mtime)} x '
                 '{top-level, nested in a reused subtree} x {METADATA, HASH} x mutation {none, touch (metadata only; also mtime + 1 ns), '
-                'flip (content only: same size, same mtime), rewrite (both), grow (size, same mtime), delete}, on a '
-                'first and on an already rebuilt cache. The invocation log of the rebuild must equal the expectation '
+                'flip / flipend (content only: first / last byte, same size, same mtime), rewrite (both), grow (size, same mtime), delete}, on a '
+                'first and on an already rebuilt cache; input reads also for inputs of 1023, 1024, 1025, 1500, 2048 and 3000 '
+                'bytes (around the 1024-byte unit of the hash loop). The invocation log of the rebuild must equal the expectation '
                 'derived from the mode table (HASH: invoked iff bytes differ; METADATA: iff size or mtime differ), '
                 'the following unchanged rebuild must invoke nothing, and the result equals the reference model '
                 'except in the combination where the documentation concedes staleness.',
